@@ -35,6 +35,7 @@ type Loaded struct {
 	verifrt     *ssa.Package
 	initSet     map[*ssa.Package]bool
 	atomicCache sync.Map
+	names       sync.Map
 	LoadWall    float64
 }
 
@@ -65,11 +66,27 @@ func BuildOverlay(harnessDir, repoDir string) (map[string][]byte, map[string]str
 // Load type-checks the patterns (relative to repoDir) with the harness overlay
 // and builds SSA with bodies for exactly the packages named by the patterns.
 func Load(repoDir string, patterns []string, overlay map[string][]byte, initPkgs []string) (*Loaded, error) {
+	// go list -mod=mod may rewrite go.mod (e.g. when a harness imports an indirect
+	// dependency directly): give it a scratch copy so /repo is never touched.
+	modDir, err := os.MkdirTemp("", "verif-mod-")
+	if err != nil {
+		return nil, err
+	}
+	defer os.RemoveAll(modDir)
+	for _, f := range []string{"go.mod", "go.sum"} {
+		b, err := os.ReadFile(filepath.Join(repoDir, f))
+		if err != nil {
+			return nil, err
+		}
+		if err := os.WriteFile(filepath.Join(modDir, f), b, 0o644); err != nil {
+			return nil, err
+		}
+	}
 	cfg := &packages.Config{
 		Mode:       packages.LoadSyntax,
 		Dir:        repoDir,
 		Overlay:    overlay,
-		BuildFlags: []string{"-tags=verif", "-mod=mod"},
+		BuildFlags: []string{"-tags=verif", "-mod=mod", "-modfile=" + filepath.Join(modDir, "go.mod")},
 		Env:        append(os.Environ(), "GOFLAGS=-mod=mod", "GOPROXY=off", "GOSUMDB=off", "GOTOOLCHAIN=local"),
 		Tests:      false,
 	}
@@ -163,6 +180,9 @@ func (ld *Loaded) isAtomicFn(fn *ssa.Function) bool {
 		return v.(bool)
 	}
 	r := false
+	if strings.HasPrefix(fn.Name(), "verifAtomic") {
+		r = true
+	}
 	if fn.Pkg != nil && fn.Pkg == ld.verifrt {
 		n := fn.Name()
 		if strings.HasPrefix(n, "Atomic") || strings.HasPrefix(n, "atomic") {
@@ -177,4 +197,26 @@ func (ld *Loaded) isAtomicFn(fn *ssa.Function) bool {
 	}
 	ld.atomicCache.Store(fn, r)
 	return r
+}
+
+func (ld *Loaded) fnName(fn *ssa.Function) string {
+	if v, ok := ld.names.Load(fn); ok {
+		return v.(string)
+	}
+	n := fn.String()
+	ld.names.Store(fn, n)
+	return n
+}
+
+// funcByName resolves "import/path.Func".
+func (ld *Loaded) funcByName(name string) *ssa.Function {
+	i := strings.LastIndex(name, ".")
+	if i < 0 {
+		return nil
+	}
+	p := ld.Pkgs[name[:i]]
+	if p == nil {
+		return nil
+	}
+	return p.Func(name[i+1:])
 }
